@@ -26,6 +26,8 @@ import (
 
 	yaml "gopkg.in/yaml.v2"
 
+	zipkingo "github.com/openzipkin/zipkin-go"
+
 	"github.com/megaease/easegress/pkg/context"
 	"github.com/megaease/easegress/pkg/protocols/httpprot"
 	"github.com/megaease/easegress/pkg/protocols/httpprot/httpstat"
@@ -44,7 +46,10 @@ type c13hReq struct {
 }
 
 type c13hInput struct {
-	Spec     c13hM     `json:"spec"`
+	Spec c13hM `json:"spec"`
+	// Tracing2: when present, the second reload (hot update) uses the spec with this `tracing` section
+	// ("-" = section removed), so that the tracer is re-selected.
+	Tracing2 interface{} `json:"tracing2,omitempty"`
 	Backends []string  `json:"backends"`
 	Reqs     []c13hReq `json:"reqs"`
 }
@@ -90,6 +95,22 @@ func c13hOracle(s string) c13hStr {
 	return o
 }
 
+// c13hHostports: `tracing.zipkin.hostport` strings are answered separately (zipkin's NewEndpoint, what
+// ZipkinSpec.Validate calls) under the key "hostport|<s>", in the `url` field.
+func c13hHostports(spec c13hM, out map[string]c13hStr) {
+	add := func(v interface{}) {
+		if t, ok := v.(map[string]interface{}); ok {
+			if z, ok := t["zipkin"].(map[string]interface{}); ok {
+				if hp, ok := z["hostport"].(string); ok {
+					_, err := zipkingo.NewEndpoint("", hp)
+					out["hostport|"+hp] = c13hStr{URL: err == nil}
+				}
+			}
+		}
+	}
+	add(spec["tracing"])
+}
+
 func c13hWalk(v interface{}, out map[string]c13hStr) {
 	switch x := v.(type) {
 	case string:
@@ -122,7 +143,11 @@ func c13hFrames(stack string) (string, []string) {
 		if i := strings.LastIndexByte(f, '('); i > 0 {
 			f = f[:i]
 		}
-		if site == "?" && strings.HasPrefix(ln, pre) {
+		// the site is the first frame of the object under test (pkg/object/httpserver); a frame of a
+		// helper package above it (e.g. a method called on a nil *tracing.Tracer) stays in `frames`
+		if (site == "?" || !strings.HasPrefix(site, "object/httpserver.")) && strings.HasPrefix(f, "object/httpserver.") {
+			site = f
+		} else if site == "?" && strings.HasPrefix(ln, pre) {
 			site = f
 		}
 		if len(out) > 0 && out[len(out)-1] == f {
@@ -219,6 +244,7 @@ func c13hExec(raw json.RawMessage) interface{} {
 	}
 	obs := &c13hObs{Oracle: map[string]c13hStr{}, Status: []int{}}
 	c13hWalk(map[string]interface{}(in.Spec), obs.Oracle)
+	c13hHostports(in.Spec, obs.Oracle)
 
 	doc := c13hM{"name": "hs", "kind": "HTTPServer"}
 	for k, v := range in.Spec {
@@ -251,7 +277,11 @@ func c13hExec(raw json.RawMessage) interface{} {
 		obs.Crash = c
 		return obs
 	}
-	defer func() { c13hTry("Close", -1, func() { m.close() }) }()
+	closeMux := func() {
+		if c := c13hTry("Close", -1, func() { m.close() }); c != nil && obs.Crash == nil {
+			obs.Crash = c
+		}
+	}
 	serve := func(phase string) bool {
 		for i, rq := range in.Reqs {
 			if strings.HasPrefix(rq.Path, "/.well-known/acme-challenge/") {
@@ -294,12 +324,33 @@ func c13hExec(raw json.RawMessage) interface{} {
 		return true
 	}
 	if !serve("Handle") {
+		closeMux()
 		return obs
 	}
-	// hot update: the runtime reloads the mux with the new generation's spec
-	ss2, err := supervisor.NewSpec(string(buf))
+	// hot update: the runtime reloads the mux with the new generation's spec (optionally with another
+	// tracing section; a second generation that validation rejects is simply not loaded)
+	buf2 := buf
+	if in.Tracing2 != nil {
+		doc2 := c13hM{}
+		for k, v := range doc {
+			doc2[k] = v
+		}
+		if s, ok := in.Tracing2.(string); ok && s == "-" {
+			delete(doc2, "tracing")
+		} else {
+			doc2["tracing"] = c13hNum(in.Tracing2)
+		}
+		if b, err := yaml.Marshal(doc2); err == nil {
+			buf2 = b
+		}
+	}
+	ss2, err := supervisor.NewSpec(string(buf2))
+	if err != nil {
+		ss2, err = supervisor.NewSpec(string(buf))
+	}
 	if err != nil {
 		obs.Err = "second-newspec"
+		closeMux()
 		return obs
 	}
 	if c := c13hTry("Inherit", -1, func() { m.reload(ss2, mapper) }); c != nil {
@@ -307,6 +358,7 @@ func c13hExec(raw json.RawMessage) interface{} {
 		return obs
 	}
 	serve("Handle2")
+	closeMux()
 	return obs
 }
 
@@ -437,6 +489,35 @@ func (g *c13hG) path() c13hM {
 	return p
 }
 
+// tracing: absent (caller) / valid / accepted-but-unbuildable (negative sampleRate: `minimum=0` is dropped by
+// the schema generator and ZipkinSpec.Validate only checks hostport) / rejected (sampleRate > 1, bad hostport)
+func (g *c13hG) tracing() c13hM {
+	z := c13hM{"serverURL": g.pick("http://127.0.0.1:1/api/v2/spans", "http://127.0.0.1:1", ""), "sampleRate": []interface{}{0, 0.5, 1, 1}[g.r.Intn(4)]}
+	if g.maybe(3) {
+		z["sampleRate"] = []interface{}{-0.5, -1, 1.5, 2}[g.r.Intn(4)]
+	}
+	if g.maybe(2) {
+		z["hostport"] = g.pick("127.0.0.1:9411", "[::1]:9411", "", "127.0.0.1:0")
+		if g.odd() {
+			z["hostport"] = g.pick("bad", "127.0.0.1", "127.0.0.1:99999", ":x")
+		}
+	}
+	if g.maybe(4) {
+		z["sameSpan"] = true
+	}
+	if g.maybe(4) {
+		z["id128Bit"] = true
+	}
+	t := c13hM{"serviceName": g.pick("svc", "", "a b"), "zipkin": z}
+	if g.maybe(4) {
+		t["tags"] = c13hM{"k": "v"}
+	}
+	if g.odd() {
+		delete(t, g.pick("serviceName", "zipkin"))
+	}
+	return t
+}
+
 func (g *c13hG) rule() c13hM {
 	r := c13hM{}
 	if g.maybe(3) {
@@ -506,6 +587,18 @@ func c13hGen(r0 *verifh.Rand, i int) interface{} {
 	if !g.odd() {
 		spec["rules"] = rules
 	}
+	var tracing2 interface{}
+	if g.maybe(3) {
+		spec["tracing"] = g.tracing()
+		if g.maybe(2) {
+			tracing2 = "-"
+			if g.maybe(2) {
+				tracing2 = g.tracing()
+			}
+		}
+	} else if g.maybe(6) {
+		tracing2 = g.tracing()
+	}
 	reqs := []c13hReq{}
 	for k, n := 0, g.r.PickInt(1, 2, 3); k < n; k++ {
 		rq := c13hReq{Method: g.pick("GET", "GET", "POST", "HEAD", "OPTIONS", "PUT", "bGET"),
@@ -520,7 +613,7 @@ func c13hGen(r0 *verifh.Rand, i int) interface{} {
 		}
 		reqs = append(reqs, rq)
 	}
-	return c13hInput{Spec: spec, Backends: []string{"b0", "b1"}, Reqs: reqs}
+	return c13hInput{Spec: spec, Tracing2: tracing2, Backends: []string{"b0", "b1"}, Reqs: reqs}
 }
 
 func TestVerifC13HTTP(t *testing.T) {
